@@ -44,6 +44,11 @@ type Op struct {
 	// Long names the command that was stretched beyond 4096 bytes ("index:length"; "" = none):
 	// from-file variants must hand such a file line to the device as one command.
 	Long string `json:"long,omitempty"`
+	// Share says how the caller's option slice variable is used: "" = a fresh slice for this call;
+	// "first" = a fresh slice that the following "reuse" operations pass again (the very same slice
+	// variable, not a copy); "reuse" = the previous operation's slice. All operations of one group
+	// have the same OLGiven/OL/Stop/Strip/Exact/Opts.
+	Share string `json:"share,omitempty"`
 }
 
 // longLineMax bounds the ordinary long lines below bufio.MaxScanTokenSize (65536). Lines of
@@ -711,6 +716,9 @@ func contains(l []string, s string) bool {
 
 // buildOp concretises one operation inside session s with string pool p (p[6] is never listed).
 func buildOp(r *rand.Rand, s *Session, o Op, pattern string, p []string, unlisted []string) Op {
+	if o.Share == "reuse" {
+		return fillCmds(r, s, o, pattern, p, unlisted) // option settings are those of the group's first operation
+	}
 	o.Strip = r.Intn(5) != 0
 	o.Exact = r.Intn(2) == 0
 	o.Opts = canonicalOpts(&o)
@@ -727,6 +735,50 @@ func buildOp(r *rand.Rand, s *Session, o Op, pattern string, p []string, unliste
 	if o.Opts == nil {
 		o.Opts = []string{}
 	}
+	return fillCmds(r, s, o, pattern, p, unlisted)
+}
+
+// followUps makes, for about one operation in eight, the operation just appended the first of a
+// group: 1-2 extra operations (other command lists, any API of the driver) follow that are called
+// with the very same option slice variable. Extra operations; the enumeration is untouched.
+func followUps(r *rand.Rand, s *Session, p []string, unlisted []string) int {
+	if r.Intn(8) != 0 {
+		return 0
+	}
+	first := &s.Ops[len(s.Ops)-1]
+	first.Share = "first"
+	hasForeign := false
+	for _, n := range first.Opts {
+		if !isGenericOpt(n) {
+			hasForeign = true
+		}
+	}
+	if !hasForeign {
+		// semantically neutral; gives the slice an option of another layer (position by PRNG)
+		k := r.Intn(len(first.Opts) + 1)
+		first.Opts = append(first.Opts[:k], append([]string{"timeout"}, first.Opts[k:]...)...)
+	}
+	tmpl := *first
+	apis := apisFor(s.Driver)
+	exchanges := 0
+	for k, cnt := 0, 1+r.Intn(2); k < cnt; k++ {
+		o := Op{API: apis[r.Intn(len(apis))], Share: "reuse", OLGiven: tmpl.OLGiven, OL: append([]string{}, tmpl.OL...), OLKind: tmpl.OLKind,
+			Stop: tmpl.Stop, Strip: tmpl.Strip, Exact: tmpl.Exact, Opts: append([]string{}, tmpl.Opts...)}
+		if r.Intn(4) != 0 {
+			o.API = apis[1+r.Intn(len(apis)-1)] // mostly the multi-command entry points
+		}
+		n := 2 + r.Intn(3)
+		pat := make([]byte, n)
+		for j := range pat {
+			pat[j] = "nhhd"[r.Intn(4)]
+		}
+		s.Ops = append(s.Ops, buildOp(r, s, o, string(pat), p, unlisted))
+		exchanges += n
+	}
+	return exchanges
+}
+
+func fillCmds(r *rand.Rand, s *Session, o Op, pattern string, p []string, unlisted []string) Op {
 	g := &genCtx{r: r, s: s, inForce: InForce(s, &o), prompt: s.Prompts[ModeOf(o.API)], strip: o.Strip, escOK: s.ReadSize >= 64}
 	g.decoys = map[string][]string{"unlisted": unlisted}
 	for _, d := range s.DL {
@@ -904,6 +956,7 @@ func Gen(tier string, seed int64) []mon.Case {
 					o := Op{API: t.api, Stop: t.stop}
 					setOL(r, &o, dl, t.olKind, p)
 					s.Ops = append(s.Ops, buildOp(r, &s, o, t.pattern, p[:6], p[6:]))
+					budget -= followUps(r, &s, p[:6], p[6:])
 					budget -= len(t.pattern)
 				}
 				add(s)
@@ -949,7 +1002,53 @@ func Gen(tier string, seed int64) []mon.Case {
 				}
 			}
 			s.Ops = append(s.Ops, buildOp(r, &s, o, string(pat), listed, unlisted))
+			followUps(r, &s, listed, unlisted)
 		}
+		add(s)
+	}
+	// command files with many short lines: larger than the loader's initial 4 KiB buffer, a few larger
+	// than 64 KiB (every line short). One from-file operation per session, fast transport.
+	nMany, nHuge := 6, 2
+	if tier == "thorough" {
+		nMany, nHuge = 30, 6
+	}
+	for i := 0; i < nMany+nHuge; i++ {
+		driver := []string{"generic", "network"}[i%2]
+		s := newSession(r, "manylines", driver)
+		s.Seg = devsim.Seg{Mode: []string{"whole", "mix"}[r.Intn(2)], Size: 16, Seed: r.Int63()}
+		s.ReadSize, s.ReadDelay = 8192, 50
+		p := drawPool(r, s.Host, 9)
+		listed, unlisted := p[:8], p[8:]
+		s.DLKind = "random"
+		s.DLGiven = r.Intn(4) != 0
+		s.DL = []string{}
+		if s.DLGiven {
+			s.DL = permute(r, listed...)[:1+r.Intn(3)]
+		}
+		o := Op{API: "cmdsfile", Stop: r.Intn(4) == 0, OL: []string{}, OLKind: "random"}
+		if driver == "network" && r.Intn(2) == 0 {
+			o.API = "cfgsfile"
+		}
+		if r.Intn(2) == 0 {
+			o.OLGiven = true
+			o.OL = permute(r, listed...)[:1+r.Intn(3)]
+		}
+		n := 300 + r.Intn(300) // x ~18 bytes: 5-11 KiB
+		if i >= nMany {
+			n = 4000 + r.Intn(500) // > 64 KiB
+		}
+		pat := make([]byte, n)
+		for j := range pat {
+			switch x := r.Intn(50); {
+			case x < 3:
+				pat[j] = 'h'
+			case x < 5:
+				pat[j] = 'd'
+			default:
+				pat[j] = 'n'
+			}
+		}
+		s.Ops = append(s.Ops, buildOp(r, &s, o, string(pat), listed, unlisted))
 		add(s)
 	}
 	return cases
